@@ -280,10 +280,12 @@ func (w *world) addHook(logical int, remote, local string, scope defn.Scope, loc
 	w.hooks[logical] = &hookFace{ls: ls, tr: tr}
 }
 
-func (w *world) setup(localhop bool, fibAlg string) string {
+func (w *world) setup(localhop bool, fibAlg string, readvertise bool) string {
 	initOnce()
 	w.teardown()
+	table.VerifSetReadvertisers() // the previous history's readvertiser belongs to a dead thread
 	cfg := core.GetConfig()
+	cfg.Tables.Rib.ReadvertiseNlsr = readvertise
 	cfg.Mgmt.AllowLocalhop = localhop
 	cfg.Tables.Fib.Algorithm = fibAlg
 	mgmt.Configure()
